@@ -101,10 +101,10 @@ func cmdC15(seed uint64, tier, outdir string) {
 				files = append(files, f)
 			}
 		}
-		if r.chance(1, 2) {
+		if r.chance(1, 2) || i < 2 {
 			var sb strings.Builder
 			nw := 3300 + r.intn(600)
-			if r.chance(1, 2) {
+			if r.chance(1, 2) || i == 0 {
 				nw = 14000 + r.intn(3000) // the serialised search set of a text this long exceeds a mebibyte
 			}
 			for j := 0; j < nw; j++ {
